@@ -63,6 +63,8 @@ def operand_of(s):
     if k == "extind":
         return "[" + value_text(s["val"]) + "]"
     if k == "idx":
+        if s.get("bare"):               # LDB X: the register alone means zero offset
+            return s["reg"]
         body = (value_text(s["val"]) if s.get("val") else "") + "," + s["reg"]
         return "[" + body + "]" if s.get("ind") else body
     if k == "idxacc":
@@ -272,6 +274,8 @@ def build_program(protos, org_raw, with_org, labels_raw):
             s["reg"] = A.IDX_REGS[p[2] % 4]
             s["ind"] = p[3] % 4 == 0
             s["val"] = None if p[3] % 5 == 1 else val_any(p, -32768, 65535, True, any_equ)
+            if s["val"] is None and not s["ind"] and p[4] % 2 == 0:
+                s["bare"] = True
         elif k == "idxacc":
             s["mn"] = IDX[p[1] % len(IDX)]
             s["acc"] = "ABD"[p[2] % 3]
@@ -387,6 +391,14 @@ def build_program(protos, org_raw, with_org, labels_raw):
     if with_org % 4 == 3:
         tgt = label_names[org_raw % len(label_names)] if label_names and org_raw % 2 else None
         stmts.append({"lab": "", "k": "end", "to": tgt})
+    # label+c of a label,PCR target must stay within 16 bits (beyond $FFFF the tool may reject the expression; what it
+    # does there is not this generator's subject): large constants are reduced where the program could reach that far
+    top = (org if with_org else 0) + sum(size_bounds(s)[1] for s in stmts)
+    for s in stmts:
+        if s["k"] == "pcr" and s["val"].get("op") == "+" and top + s["val"]["c"] > 0xFFFF:
+            s["val"]["c"] %= 6
+            if not s["val"]["c"]:
+                s["val"]["op"] = ""
     return {"org": org if with_org else None, "stmts": stmts}
 
 
